@@ -4,6 +4,7 @@ import (
 	"fmt"
 	"math/big"
 	"math/rand"
+	"net"
 	"runtime/debug"
 	"sort"
 	"strings"
@@ -45,7 +46,8 @@ func init() {
 				n, nc, np = 3000000, 1500, 20000
 			}
 			return []runner.Phase{
-				{Name: "static", Variant: "plain", Cases: n, Run: c11static, Required: []string{"token_aware_with_key", "nonlocal_fallback", "rotation_checks", "rotation_checks_farther_tiers", "down_hosts", "names_differing_in_case_only", "replica_sets_compared"}},
+				{Name: "static", Variant: "plain", Cases: n, Run: c11static, Required: []string{"token_aware_with_key", "nonlocal_fallback", "rotation_checks", "rotation_checks_farther_tiers", "down_hosts", "names_differing_in_case_only", "replica_sets_compared", "more_than_12_replicas"}},
+				{Name: "address-exchange", Variant: "plain", Cases: n / 100, Run: c11addressExchange, Required: []string{"address_exchanges"}},
 				{Name: "concurrent", Variant: "race", Cases: nc, Run: c11concurrent, CaseTimeout: 120 * time.Second, Required: []string{"concurrent_picks"}},
 				{Name: "concurrent-build", Variant: "race", Cases: nc * 10, Run: c11build, Required: []string{"concurrent_builds"}},
 				{Name: "cowlist-linearizable", Variant: "race", Cases: np, Run: c11cow, Required: []string{"histories_checked"}},
@@ -189,10 +191,16 @@ func c11gen(r *rand.Rand) *c11state {
 	s.nonlocal = s.token && r.Intn(2) == 0
 	if r.Intn(2) == 0 {
 		s.simple, s.rf = true, 1+r.Intn(4)
+		if r.Intn(5) == 0 {
+			s.rf = 1 + r.Intn(n) // up to every node a replica (more than a dozen replicas per token)
+		}
 	} else {
 		s.dcrf = map[string]int{}
 		for d := 0; d < nd; d++ {
 			s.dcrf[dcNames[d]] = r.Intn(4)
+			if r.Intn(6) == 0 {
+				s.dcrf[dcNames[d]] = r.Intn(9)
+			}
 		}
 	}
 	return s
@@ -465,6 +473,9 @@ func c11static(c *runner.Ctx, i int) {
 		}
 		if s.nonlocal {
 			c.Add("nonlocal_fallback", 1)
+		}
+		if len(replicas) > 12 {
+			c.Add("more_than_12_replicas", 1)
 		}
 		pos := 0
 		for gi, g := range groups {
@@ -887,4 +898,82 @@ func c11tokenAware(fb gocql.HostSelectionPolicy, shuffle, nonlocal bool) gocql.H
 		return gocql.TokenAwareHostPolicy(fb, gocql.NonLocalReplicasFallback())
 	}
 	return gocql.TokenAwareHostPolicy(fb)
+}
+
+// c11addressExchange: host identities and addresses that do not move together - two nodes exchange addresses, a
+// replacement node takes over an address before the old node is removed (what a ring refresh does for hosts whose
+// address changed). Whatever the policy ends up knowing, it must not panic, must not offer a nil host or a host
+// twice, and every later update and Pick must keep working.
+func c11addressExchange(c *runner.Ctx, i int) {
+	r := c.Rng
+	s := c11gen(r)
+	s.tokenless = false
+	for len(s.hosts) < 3 {
+		s = c11gen(r)
+		s.tokenless = false
+	}
+	for _, h := range s.hosts {
+		h.up, h.notified = true, false
+	}
+	variant := i % 2
+	where := "building the policy"
+	defer func() {
+		if rec := recover(); rec != nil {
+			c.Violation(fmt.Sprintf("C11:%s:panic:address-exchange", s.polKey()), fmt.Sprintf("the policy panicked while %s: %v", where, rec), map[string]interface{}{"state": s.String(), "variant": variant, "stack": string(debug.Stack())})
+		}
+	}()
+	s.extraRemoved = false
+	pol := s.build()
+	x, y := s.hosts[0], s.hosts[1]
+	ipX, ipY := x.h.ConnectAddress(), y.h.ConnectAddress()
+	mk := func(h *c11host, ip net.IP) *gocql.HostInfo {
+		var toks []string
+		for _, t := range h.toks {
+			toks = append(toks, fmt.Sprint(t))
+		}
+		return gocql.VerifNewHostInfo(h.id, ip, 9042, h.dc, h.rack, toks, true)
+	}
+	switch variant {
+	case 0:
+		where = "two nodes exchange addresses"
+		pol.RemoveHost(x.h)
+		pol.AddHost(mk(x, ipY))
+		pol.RemoveHost(y.h)
+		pol.AddHost(mk(y, ipX))
+	default:
+		where = "a replacement node takes over an address before the old node is removed"
+		repl := &c11host{id: "replacement", dc: y.dc, rack: y.rack, toks: []int64{1<<62 + 777}}
+		pol.AddHost(mk(repl, ipY))
+		pol.RemoveHost(y.h)
+	}
+	c.Add("address_exchanges", 1)
+	c.Eval(runner.H("c11exchange", s.polKey(), variant, len(s.hosts)), true)
+	where = "picking after: " + where
+	for k := 0; k < 4; k++ {
+		var q gocql.ExecutableQuery = gocql.VerifNewQuery("ks", []byte{byte(k), 1, 2, 3})
+		seq, nilInfo, overflow := drain(pol.Pick(q), 4*len(s.hosts)+16)
+		if nilInfo {
+			c.Violation(fmt.Sprintf("C11:%s:nil-host:address-exchange", s.polKey()), "a selected host has nil Info() after "+where, map[string]interface{}{"state": s.String()})
+			return
+		}
+		if overflow {
+			c.Violation(fmt.Sprintf("C11:%s:non-terminating:address-exchange", s.polKey()), "the host iterator does not end after "+where, map[string]interface{}{"state": s.String()})
+			return
+		}
+		seen := map[*gocql.HostInfo]bool{}
+		for _, h := range seq {
+			if seen[h] {
+				c.Violation(fmt.Sprintf("C11:%s:duplicate-host:address-exchange", s.polKey()), "a host is offered twice after "+where, map[string]interface{}{"state": s.String()})
+				return
+			}
+			seen[h] = true
+		}
+	}
+	where = "further updates after: " + where
+	z := s.hosts[2]
+	pol.HostDown(z.h)
+	pol.HostUp(z.h)
+	pol.RemoveHost(z.h)
+	pol.AddHost(z.h)
+	drain(pol.Pick(nil), 4*len(s.hosts)+16)
 }
